@@ -7,6 +7,7 @@ import (
 	"fmt"
 	"os"
 	"path/filepath"
+	"regexp"
 	"sort"
 	"strings"
 
@@ -1115,6 +1116,8 @@ func checkExports(ctx context.Context, r *simkit.Run, w *world, dir string, step
 }
 
 // checkReverse is the C17 oracle: up then down restores the starting schema; down files hold the reverse statements.
+var reCreateIdx = regexp.MustCompile("^CREATE (?:UNIQUE )?INDEX `([^`]+)` ON `([^`]+)`")
+
 func checkReverse(ctx context.Context, r *simkit.Run, w *world, obs *sql.DB, plan *migrate.Plan, changes []schema.Change, beforeCat, afterCat map[string]string, start *schema.Realm, step int, indent bool) {
 	const prop = "C17"
 	allHave := true
@@ -1217,6 +1220,16 @@ func checkReverse(ctx context.Context, r *simkit.Run, w *world, obs *sql.DB, pla
 			// referencing one then fails on the missing parent.
 			if strings.HasPrefix(s, "DROP TABLE") && strings.Contains(err.Error(), "no such table: main.") {
 				sig = "reverse-statement-fails/drop-of-referencing-table-after-its-parent"
+			}
+			// Another recorded finding (the C17 face of C01's index-name-moves-between-tables): the plan
+			// itself creates an index of this name on another table — index names are global in SQLite —
+			// and in reverse order the dropped table's index is re-created before that one is dropped.
+			if m := reCreateIdx.FindStringSubmatch(s); m != nil && strings.Contains(err.Error(), "already exists") {
+				for _, c := range plan.Changes {
+					if f := reCreateIdx.FindStringSubmatch(c.Cmd); f != nil && f[1] == m[1] && f[2] != m[2] {
+						sig = "reverse-statement-fails/index-name-moves-between-tables"
+					}
+				}
 			}
 			r.Fail(prop, "down", sig, "step %d: reverse statement fails: %v\nstatement: %s\nplan:\n%s", step, err, s, planText(plan))
 			return
